@@ -30,7 +30,7 @@ RULE = ("Generated: thresholds 1..4, op lists up to length 20 over requests with
         "sequences of length <= 4 (quick) / 5 (thorough) over a 9-letter alphabet for thresholds 1..3 under AND with cache on. "
         "Non-trivial: the history reached OPEN at least once (or, with the breaker disabled, contains >= threshold failures).")
 ASSUMPTIONS = [
-    "failure := agent exception, or a result with action FAILURE; success := not blocked; intentional block := blocked result with a BLOCK verdict and no executor FAILURE; anything else (ERROR/mismatch, FAILURE masked by a block) is ambiguous and may or may not count",
+    "failure := agent exception, or a result with action FAILURE; success := not blocked; intentional block := a result the loop reports as BLOCKED/SKIPPED for a request on which an agent answered BLOCK (also when the executor failed in the same turn); anything else (ERROR/mismatch) is ambiguous and may or may not count",
     "total- and consecutive-counting implementations are both accepted: OPEN requires >= threshold failures since the last clear, and threshold consecutive definite failures require OPEN",
     "admission at exactly the recovery timeout is accepted either way; 1 s before must isolate, 1 s after must admit",
     "time is the virtual clock substituted for operon_ai.topology.loops.datetime; cache TTL is the default 300 s of virtual time",
@@ -41,11 +41,13 @@ MIN_NONTRIVIAL_FRACTION = 0.1
 RULE += " Added after the seeded rounds: " + '40% of the generated histories start by tripping the breaker and waiting out the timeout (probes are common); stub exceptions are drawn from 16 exception types.'
 RULE += ' 1/30 of the histories contain a `bulk` of 1001+ requests with fresh prompts; clock gaps range from 0.5 s to two days.'
 RULE += ' Bookkeeping calls between requests (clear_cache, get_statistics, get_circuit_breaker_stats).'
+RULE += " A request the loop reports as BLOCKED/SKIPPED after an agent's BLOCK is an intentional block also when the executor failed in the same turn (tightened after round 6: the earlier tolerance 'may or may not count' hid a change that counted vetoed requests as failures). Agents also raise exceptions that carry no message."
 
 PAIRS = {"raise_t": ("RAISE_TIMEOUT", "PERMIT"), "raise_v": ("EXECUTE", "RAISE_VALUE"), "raise_o": ("RAISE_OS", "PERMIT"), "ok": ("EXECUTE", "PERMIT"), "block": ("EXECUTE", "BLOCK"), "eblock": ("BLOCK", "PERMIT"), "fail": ("FAILURE", "PERMIT"),
-         "raise_e": ("RAISE", "PERMIT"), "raise_a": ("EXECUTE", "RAISE"), "odd": ("UNKNOWN", "PERMIT"), "failblock": ("FAILURE", "BLOCK")}
+         "raise_e": ("RAISE", "PERMIT"), "raise_a": ("EXECUTE", "RAISE"), "odd": ("UNKNOWN", "PERMIT"), "failblock": ("FAILURE", "BLOCK"),
+         "raise_n": ("RAISE_NOMSG", "PERMIT"), "raise_na": ("EXECUTE", "RAISE_NOMSG_ASSERT")}
 
-_kind = st.sampled_from(["ok", "block", "fail", "fail", "raise_e", "raise_e", "raise_a", "eblock", "odd", "failblock", "raise_t", "raise_v", "raise_o"])
+_kind = st.sampled_from(["ok", "block", "fail", "fail", "raise_e", "raise_e", "raise_a", "eblock", "odd", "failblock", "raise_t", "raise_v", "raise_o", "raise_n", "raise_na"])
 _op = st.one_of(
     st.tuples(st.just("req"), st.integers(0, 3), _kind),
     st.tuples(st.just("req"), st.integers(4, 40), _kind),
@@ -221,8 +223,8 @@ def _judge(case, out, clock, CS):
             cls = "success"
         elif r.action == "FAILURE":
             cls = "failure"
-        elif "BLOCK" in PAIRS[kind] and PAIRS[kind][0] != "FAILURE" and r.action in ("BLOCKED", "SKIPPED"):
-            cls = "block"
+        elif "BLOCK" in PAIRS[kind] and r.action in ("BLOCKED", "SKIPPED"):
+            cls = "block"        # the loop itself reports a deliberate veto (also when the executor failed in the same turn): never a failure
         else:
             cls = "ambiguous"
         out.label("outcome:" + cls)
